@@ -639,18 +639,47 @@ func runCase(c Case) (vkit.Info, error) {
 
 // askSplit sends one AskSplit (batch = 0) or AskBatchSplit (batch splits) for a region with the given number of
 // peers to a RaftCluster whose id allocator is the instance's real allocator, and returns every id of the answer.
+type swapAlloc struct {
+	mu  sync.Mutex
+	cur id.Allocator
+}
+
+func (a *swapAlloc) set(x id.Allocator)     { a.mu.Lock(); a.cur = x; a.mu.Unlock() }
+func (a *swapAlloc) get() id.Allocator      { a.mu.Lock(); defer a.mu.Unlock(); return a.cur }
+func (a *swapAlloc) Alloc() (uint64, error) { return a.get().Alloc() }
+func (a *swapAlloc) Rebase() error          { return a.get().Rebase() }
+
+type pooledRC struct {
+	sw *swapAlloc
+	rc *cluster.RaftCluster
+	bc *core.BasicCluster
+}
+
+var (
+	pooledMu sync.Mutex
+	pooled   = map[int]*pooledRC{}
+)
+
 func askSplit(in *instance, peers, batch int) ([]uint64, error) {
-	if in.rc == nil {
+	// One RaftCluster per member slot for the whole process (InitCluster starts hot-cache goroutines that nothing
+	// stops: one per case leaked 20 000 goroutines and 7 GB in a thorough run); the allocator behind it is switched
+	// to the calling instance's.
+	pooledMu.Lock()
+	pr := pooled[in.slot]
+	if pr == nil {
 		cfg := config.NewConfig()
 		if err := cfg.Adjust(nil, false); err != nil {
+			pooledMu.Unlock()
 			return nil, err
 		}
-		ctx, cancel := context.WithCancel(context.Background())
-		in.cancel = cancel
-		in.rc = cluster.NewRaftCluster(ctx, "", 1, nil, nil, nil)
-		in.bc = core.NewBasicCluster()
-		in.rc.InitCluster(in.alloc, config.NewPersistOptions(cfg), core.NewStorage(kv.NewMemoryKV()), in.bc)
+		pr = &pooledRC{sw: &swapAlloc{}, bc: core.NewBasicCluster()}
+		pr.rc = cluster.NewRaftCluster(context.Background(), "", 1, nil, nil, nil)
+		pr.rc.InitCluster(pr.sw, config.NewPersistOptions(cfg), core.NewStorage(kv.NewMemoryKV()), pr.bc)
+		pooled[in.slot] = pr
 	}
+	pooledMu.Unlock()
+	pr.sw.set(in.alloc)
+	in.rc, in.bc = pr.rc, pr.bc
 	reg := &metapb.Region{Id: 1 << 40, RegionEpoch: &metapb.RegionEpoch{ConfVer: 1, Version: 1}}
 	for p := 0; p < peers; p++ {
 		reg.Peers = append(reg.Peers, &metapb.Peer{Id: 1<<40 + uint64(p) + 1, StoreId: uint64(p) + 1})
